@@ -14,12 +14,23 @@ from .. import core, build, gen, shapes, refcodec as R, tablecheck as TC
 LEVEL = "fault_enumeration"
 
 
-def make_file(ctx, b, wd, name, comp, nblocks):
+def make_file(ctx, b, wd, name, comp, nblocks, pool=0):
+    """pool > 0: the file is written through a thread pool of that many workers (blocks are then written, counted and
+    checksummed on the result handler's path of the writer)"""
     vg = gen.VGen(7000)
     n = nblocks * 4
     entries = [(("key%04d" % i).encode(), vg.val(220 if nblocks > 1 else 30)) for i in range(n)]
-    path, wrecs, s = TC.write_real_file(ctx, b, wd, name, gen.writer_cfg(comp=comp, ri=2), entries)
-    return path, s
+    if not pool:
+        path, wrecs, s = TC.write_real_file(ctx, b, wd, name, gen.writer_cfg(comp=comp, ri=2), entries)
+        return path, s
+    path = os.path.join(wd, name + ".mtbl")
+    if os.path.exists(path):
+        os.unlink(path)
+    lines = ["scratch " + wd, "pool_init 0 %d" % pool] + gen.write_table_lines(0, path, gen.writer_cfg(comp=comp, ri=2, pool=0), entries) + ["pool_destroy 0"]
+    evs, rc, err = core.run_drv(b, "\n".join(lines) + "\n", wd, name + ".w")
+    if rc != 0:
+        raise core.Infra("pooled writer run failed rc=%s: %s" % (rc, err[-2000:]))
+    return path, R.decode(path)
 
 
 def flip(data, bits):
@@ -60,11 +71,14 @@ def run(ctx):
     comps = ["none", "zlib"] if ctx.quick() else gen.COMPS
     sizes = [1, 3] if ctx.quick() else [1, 2, 3, 6]
     jobs = []       # (image path, bad block, nblocks, label, struct)
-    for comp in comps:
-        for nb in sizes:
-            path, s = make_file(ctx, b, wd, "t_%s_%d" % (comp, nb), comp, nb)
+    plan_files = [(comp, nb, 0) for comp in comps for nb in sizes]
+    # the same tables written through a thread pool (the writer's other block-output path)
+    plan_files += [("none", 3, 2)] if ctx.quick() else [(comp, nb, 2) for comp in ("none", "zlib", "zstd") for nb in (1, 3)]
+    for (comp, nb, pool) in plan_files:
+        if True:
+            path, s = make_file(ctx, b, wd, "t_%s_%d_%d" % (comp, nb, pool), comp, nb, pool)
             data = open(path, "rb").read()
-            jobs.append((path, -1, len(s["blocks"]), {"comp": comp, "class": "intact"}, s))
+            jobs.append((path, -1, len(s["blocks"]), {"comp": comp, "class": "intact", "pool": pool}, s))
             regions = []
             for bi, blk in enumerate([s["index"]] + s["blocks"]):
                 crc_lo = blk["offset"] + blk["len_prefix"]
@@ -75,7 +89,7 @@ def run(ctx):
                 for (klass, bits) in patterns(rng, lo, hi, ctx.quick(), small):
                     img = os.path.join(wd, "i%d.mtbl" % len(jobs))
                     open(img, "wb").write(flip(data, bits))
-                    jobs.append((img, bi, len(s["blocks"]), {"comp": comp, "class": klass, "region": region, "block": bi, "bits": [x - lo * 8 for x in bits][:6]}, s))
+                    jobs.append((img, bi, len(s["blocks"]), {"comp": comp, "pool": pool, "class": klass, "region": region, "block": bi, "bits": [x - lo * 8 for x in bits][:6]}, s))
     # small single-block files whose stored block lengths cover every residue modulo 8 (word-wise checksum code has one
     # tail case per residue): every single bit of checksum field + payload is flipped
     for v in range(20, 28):
